@@ -201,6 +201,48 @@ def column_names(ck, rule):
     ck.judge(bool(first), rule, short(fn) + ":first-line", w, "the first such line is taken", found=T.show(v)[:160])
 
 
+def header_driven_selection(ck, rule):
+    """Which file column a requested name stands for is decided by the '#h' line: the names given to read_csv are the header's
+    tokens and the requested columns are selected *by name*. Selecting by position and attaching the requested names afterwards
+    reads another column whenever the file lists its columns in another order (pandas ignores the order of an integer usecols)."""
+    p = ck.ctx.p
+    ck.clause(rule, "columns are selected by the names of the header line: read_csv(names=<tokens of the '#h' line>, usecols=<requested names>)")
+    fn = p.find_class("BionanoFileReader").methods.get("readFile")
+    if fn is None:
+        raise AnalysisError("BionanoFileReader.readFile not found")
+    file_p, cols_p = [V(x.name) for x in fn.call_params()[:2]]
+    n = 0
+    for pa in explore(ck, fn):
+        if pa.outcome != "return":
+            continue
+        calls = [x for x in T.subterms(pa.value) if x[0] == "call" and x[1].endswith(("read_csv", "read_table"))]
+        if not calls:
+            continue
+        n += 1
+        kw = dict(calls[0][3])
+        names, use = kw.get("names"), kw.get("usecols")
+        w = where(fn, pa.node)
+        if names is None or use is None:
+            raise AnalysisError(f"{w}: read_csv without names= / usecols=: the column selection is not recognised: {T.show(calls[0])[:160]}")
+        names_from_header = file_p in T.subterms(names) and cols_p not in T.subterms(names)
+        while use[0] == "call" and use[1] in ("list", "tuple") and len(use[2]) == 1:
+            use = use[2][0]
+        by_name = use == cols_p
+        positional = cols_p in T.subterms(names) and (any(x[0] == "mcall" and x[2] == "index" for x in T.subterms(use)) or
+                                                     any(x[0] == "c" and isinstance(x[1], int) and not isinstance(x[1], bool) for x in T.subterms(use)))
+        if names_from_header and by_name:
+            ck.ok(rule, short(fn) + ":by-name", w, "names = header tokens, usecols = requested names", T.show(calls[0])[:160])
+        elif positional:
+            ck.violation(rule, short(fn) + ":by-name", w,
+                         "the requested columns are selected by position and the requested names are attached afterwards: pandas hands "
+                         "the names out in ascending file-column order, so a file whose header lists the columns in another order than "
+                         "the caller (Position before LabelChannel, CMapId last) is read with the names on the wrong columns",
+                         found=f"names={T.show(names)[:60]}, usecols={T.show(use)[:100]}", required="names=<header tokens>, usecols=<requested names>")
+        else:
+            raise AnalysisError(f"{w}: column selection of read_csv not recognised: names={T.show(names)[:100]} usecols={T.show(use)[:100]}")
+    ck.floor(f"{rule} read_csv return paths of readFile", n, 1)
+
+
 def reader_is_stateless(ck, rule):
     """what a file is parsed into does not depend on the files read before through the same reader object"""
     from ..rules.effects import self_state_writes
@@ -242,6 +284,7 @@ def run(ck):
     reader_is_stateless(ck, "C17.7")
     column_names(ck, "C17.8")
     frame_integrity(ck, "C17.9")
+    header_driven_selection(ck, "C17.10")
     cr = p.find_class("CmapReader")
     from ..rules.common import cmap_reader_methods
     read, parse = cmap_reader_methods(ck)
